@@ -325,8 +325,62 @@ theorem decodeRune_BOM {l : Bytes} (h : (decodeRune l).1 = BOM) : (decodeRune l)
                   have : p0.toNat < 245 := by simpa [UInt8.lt_iff_toNat_lt] using h5
                   omega
             · simp [decodeRune, h1, h2, h3, h4, h5] at h
+theorem pushCtx_bal {s : St} (hB : Bal s) : Bal (pushCtx s) := by
+  unfold Bal pushCtx at *
+  simp only [List.length_append, List.length_cons, List.length_nil]
+  omega
+
+/-- `l.bases[last]` of `case tokenEnd` is in range because the two stacks are parallel -/
+theorem popCtx_ok {s : St} {c : Nat} (hB : Bal s) (hc : s.contexts.getLast? = some c) :
+    ∃ r, popCtx s c = .ok r ∧ r.base = s.base ∧ r.toks = s.toks ∧ r.tagIndex = s.tagIndex ∧ Bal r := by
+  unfold popCtx
+  have hpos : 0 < s.contexts.length := by
+    cases hl : s.contexts with
+    | nil => rw [hl] at hc; cases hc
+    | cons x xs => simp
+  have hlt : s.contexts.length - 1 < s.bases.length := by unfold Bal at hB; omega
+  simp only [List.getElem?_eq_getElem hlt]
+  refine ⟨_, rfl, ?_, ?_, ?_, ?_⟩
+  · show (if _ then _ else _ : St).base = _; split <;> rfl
+  · show (if _ then _ else _ : St).toks = _; split <;> rfl
+  · show (if _ then _ else _ : St).tagIndex = _; split <;> rfl
+  · unfold Bal at *
+    split
+    all_goals
+      show (List.take _ s.bases).length = s.contexts.dropLast.length
+      rw [List.length_take, List.length_dropLast]
+      omega
+
+/-- `afterIdent` never faults on parallel stacks, keeps them parallel, and changes nothing of
+`base`, `toks`, `tagIndex` -/
+theorem afterIdent_ok (s1 : St) (l1 : CodeLoc) (typ : Nat) (txt : Bytes) (hB : Bal s1) :
+    ∃ r, afterIdent s1 l1 typ txt = .ok r ∧ r.1.base = s1.base ∧ r.1.toks = s1.toks ∧
+      r.1.tagIndex = s1.tagIndex ∧ Bal r.1 := by
+  unfold afterIdent
+  have hp := pushCtx_bal hB
+  split
+  · split
+    · exact ⟨_, rfl, rfl, rfl, rfl, hp⟩
+    · split
+      · split
+        · rename_i c hc
+          obtain ⟨r, hr, h1, h2, h3, h4⟩ := popCtx_ok hB hc
+          rw [hr]
+          exact ⟨_, rfl, h1, h2, h3, h4⟩
+        · exact ⟨_, rfl, rfl, rfl, rfl, hB⟩
+      · split
+        · split
+          · exact ⟨_, rfl, rfl, rfl, rfl, hp⟩
+          · exact ⟨_, rfl, rfl, rfl, rfl, hB⟩
+        · exact ⟨_, rfl, rfl, rfl, rfl, hB⟩
+  · split
+    · exact ⟨_, rfl, rfl, rfl, rfl, hp⟩
+    · split
+      · exact ⟨_, rfl, rfl, rfl, rfl, hB⟩
+      · exact ⟨_, rfl, rfl, rfl, rfl, hB⟩
+
 theorem codeIdent_ok {E : Env} {endT : Nat} {st : St} {loc : CodeLoc} {c : UInt8}
-    (hb : st.base ≤ E.text.length) (h0 : 0 < srcLen E st) :
+    (hb : st.base ≤ E.text.length) (hB : Bal st) (h0 : 0 < srcLen E st) :
     ∃ o, codeIdent E endT st loc c = .ok o ∧ CodeGood E endT st o := by
   unfold codeIdent
   simp only []
@@ -378,21 +432,15 @@ theorem codeIdent_ok {E : Env} {endT : Nat} {st : St} {loc : CodeLoc} {c : UInt8
     simp only []
     obtain ⟨st', typ, txt, hl, e, t, hp, _, _⟩ := lexIdent_ok (E := E) (st := st) (s := s) hb hg.1 hg.2
     simp only [hl, bind_ok, pure_eq_ok]
-    refine ⟨_, rfl, ?_⟩
-    -- `afterIdent` changes only `ctx` and `contexts`
-    have haft : ∀ (s1 : St) (l1 : CodeLoc), (afterIdent s1 l1 typ txt).1.base = s1.base ∧
-        (afterIdent s1 l1 typ txt).1.toks = s1.toks ∧ (afterIdent s1 l1 typ txt).1.tagIndex = s1.tagIndex := by
-      intro s1 l1
-      unfold afterIdent
-      repeat' split
-      all_goals exact ⟨rfl, rfl, rfl⟩
     split
-    · obtain ⟨a1, a2, a3⟩ := haft st' loc
-      exact ⟨e.of_eq a1 a2, by rw [a3]; exact t, by rw [a1]; exact hp⟩
-    · exact ⟨e, t, hp⟩
+    · obtain ⟨r, hr, a1, a2, a3, a4⟩ := afterIdent_ok st' loc typ txt (e.bal hB)
+      simp only [hr, bind_ok]
+      exact ⟨_, rfl, e.of_bal a1 a2 (fun _ => a4), by rw [a3]; exact t, by rw [a1]; exact hp⟩
+    · simp only [bind_ok]
+      exact ⟨_, rfl, e, t, hp⟩
 
 theorem codeStep_ok {E : Env} (hN : NumSpec E) {endT : Nat} {st : St} {loc : CodeLoc}
-    (hb : st.base ≤ E.text.length) (h0 : 0 < srcLen E st) :
+    (hb : st.base ≤ E.text.length) (hB : Bal st) (h0 : 0 < srcLen E st) :
     ∃ o, codeStep E endT st loc = .ok o ∧ CodeGood E endT st o := by
   unfold codeStep
   obtain ⟨c, hc, hpk⟩ := srcAt_ok_of_lt h0
@@ -498,10 +546,10 @@ theorem codeStep_ok {E : Env} (hN : NumSpec E) {endT : Nat} {st : St} {loc : Cod
     by_cases q12 : c = 0x00
     · rw [if_pos q12]; exact ⟨_, rfl, Ext.refl hb, rfl, by intro h; cases h⟩
     rw [if_neg q12]
-    exact codeIdent_ok hb h0
+    exact codeIdent_ok hb hB h0
 
 theorem codeLoop_ok {E : Env} (hN : NumSpec E) {endT : Nat} : ∀ (fuel : Nat) (st : St) (loc : CodeLoc),
-    st.base ≤ E.text.length → srcLen E st < fuel →
+    st.base ≤ E.text.length → Bal st → srcLen E st < fuel →
     ∃ o, codeLoop E endT fuel st loc = .ok o ∧
       (match o with
        | .cont _ _ => False
@@ -509,19 +557,19 @@ theorem codeLoop_ok {E : Env} (hN : NumSpec E) {endT : Nat} : ∀ (fuel : Nat) (
        | .ret st' e => Ext E st st' ∧ st'.tagIndex = st.tagIndex ∧ (e = none → StopOK E endT st')) := by
   intro fuel
   induction fuel with
-  | zero => intro _ _ _ h; omega
+  | zero => intro _ _ _ _ h; omega
   | succ fuel ih =>
-    intro st loc hb hf
+    intro st loc hb hB hf
     unfold codeLoop
     split
     · rename_i h0
-      obtain ⟨o, ho, hg⟩ := codeStep_ok hN (endT := endT) (loc := loc) hb h0
+      obtain ⟨o, ho, hg⟩ := codeStep_ok hN (endT := endT) (loc := loc) hb hB h0
       simp only [ho, bind_ok]
       cases o with
       | cont s l =>
         simp only []
         obtain ⟨e, t, hp⟩ := hg
-        obtain ⟨o2, ho2, hg2⟩ := ih s l e.le_len (by have := e.le_len; unfold srcLen at hf ⊢; omega)
+        obtain ⟨o2, ho2, hg2⟩ := ih s l e.le_len (e.bal hB) (by have := e.le_len; unfold srcLen at hf ⊢; omega)
         refine ⟨o2, ho2, ?_⟩
         cases o2 with
         | cont _ _ => exact hg2
@@ -545,7 +593,7 @@ theorem stopOK_eof (E : Env) (st : St) : StopOK E tokenEOF st :=
 /-- `lexCode` meets the specification the template layer relies on, given `lexNumber`'s -/
 theorem codeSpec_of_numSpec {E : Env} (hN : NumSpec E) : CodeSpec E := by
   constructor
-  intro endT st hb
+  intro endT st hb hB
   unfold lexCode
   split
   · split
@@ -561,7 +609,7 @@ theorem codeSpec_of_numSpec {E : Env} (hN : NumSpec E) : CodeSpec E := by
       rw [this]; exact hs
   · simp only []
     obtain ⟨o, ho, hg⟩ := codeLoop_ok hN (endT := endT) (srcLen E st + 2) st
-      { first := st.totals + 1, macroOrUsing := false, identIndex := 0, identTxt := [], elas := false, unclosed := 0 } hb (by omega)
+      { first := st.totals + 1, macroOrUsing := false, identIndex := 0, identTxt := [], elas := false, unclosed := 0 } hb hB (by omega)
     simp only [ho, bind_ok]
     cases o with
     | cont _ _ => exact absurd hg id
